@@ -507,13 +507,12 @@ func Classify(err error) string {
 	if err == nil {
 		return "ok"
 	}
-	var se *rt.SentinelErr
 	switch {
 	case errors.Is(err, godi.ErrScopeDisposed):
 		return "scope-disposed"
 	case errors.Is(err, godi.ErrProviderDisposed):
 		return "provider-disposed"
-	case errors.As(err, &se):
+	case rt.IsInjected(err, -1, -1):
 		return "ctor-error"
 	case AsEither[godi.ConstructorPanicError](err):
 		return "ctor-panic"
